@@ -31,6 +31,11 @@ def budget(tier):
             "soft_seconds": 300 if tier == "quick" else 3000}
 
 
+def _search_lex(seed):
+    from . import c04
+    return c04.search(seed)
+
+
 def _search(seed):
     from .. import search as S
     feat = ["superset-before-subset", "min-card-set-after-larger"][seed % 2]
@@ -44,6 +49,7 @@ def _case(draw, tier):
         gen.strong_case(1, 5, 6, qlo=3, qhi=4, unfals=True),
         gen.multiclause_case(5, nq=3),
         st.integers(0, 2**40).map(_search),
+        st.integers(0, 2**40).map(_search_lex),
         gen.weak_case(1, 5, 6, qlo=3, qhi=4),
         rel.medium_case(8, 20 if q else 40, 20 if q else 40, nq=3),
         rel.corpus_case(30 if q else 100, 30 if q else 100, nq=2),
@@ -111,7 +117,8 @@ def run_case(case, ctx):
                 for i, (k, B, A) in enumerate(queries):
                     ctx.ev(1)
                     if bool(r[1][i]) != bool(ref[1][i]):
-                        out.append(obs(f"{op}|weakly={weakly}|{n.split('-', 1)[1]}!=rc2",
+                        kind = "z3" if n.endswith("-z3") else "rc2-engine"     # one bucket per root cause, engine in the detail
+                        out.append(obs(f"{op}|weakly={weakly}|{kind}!=rc2",
                                        {"query": fm.cond_text(B, A), n: bool(r[1][i]), refname: bool(ref[1][i]),
                                         "base": btxt, "corpus": case.get("corpus")}))
             if ref[0] == "ok" and len(base) >= 2:
